@@ -418,6 +418,22 @@ func (g *Gen) Step() {
 		}
 		secs := []int32{0, 0, 1, 5, 30, 600, -1}[r.Intn(7)]
 		w.ModAck(s.Name, g.subset(ids, 0.5), secs)
+	case "nack":
+		if s == nil {
+			return
+		}
+		ids := deliveredIDs(s, true)
+		if r.Intn(4) == 0 {
+			ids = deliveredIDs(s, false) // stale ids mixed in
+		}
+		if len(ids) == 0 {
+			return
+		}
+		sel := g.subset(ids, 0.5)
+		w.Nack(sel)
+		if r.Intn(6) == 0 {
+			w.Nack(sel) // nack twice
+		}
 	case "foreign":
 		// requests under one subscription's name carrying ids of the decoy
 		if s == nil || g.decoy == "" {
@@ -692,6 +708,7 @@ func (g *Gen) Drain() {
 			if offerable(d, w.now()) && d.why(must, w.now(), w.now()) == "" {
 				p, sig := propForMiss(d)
 				w.violate(p, "drain:"+sig, "after %d drain rounds %s is still outstanding in the model and was never offered", rounds, d)
+				w.siblingBlame(d, "drain:"+sig, fmt.Sprintf("never offered again: %s", d))
 			}
 		}
 	}
